@@ -132,6 +132,8 @@ def _gen_random(rng, i, kafka=False):
       steps.append(['open'])
     elif k < 0.93 and kind == 'mux':
       steps.append(['silent', rng.choice([1, 0])])
+    elif kind == 'mux' and rng.random() < 0.4:
+      steps.append(['frameor', rng.choice([-2, -2, -128, 127]), rng.randint(0, 3), rng.choice([0x800000, 0x800000, 0x400000, 0x10000, 0x8000, 0x100])])
     elif kind in ('mux', 'kafka'):
       steps.append(['frame', rng.choice([-2, -2, -128, -65, 127, 3]), rng.choice([0, 1, 1, 2, 3, 4, 7, 16777215])])
     else:
@@ -159,6 +161,16 @@ def _gen_longrun(rng):
     steps.append(['adv', rng.choice([10, 100])])
     if rng.random() < 0.15:
       steps.append(['frame', -2, rng.choice([1, 2, 3, 5, 9])])
+    if rng.random() < 0.1:
+      # ... while one request is outstanding; then enough further requests to drain the free tags, so that a
+      # tag wrongly returned to the pool has to be handed out again before the peer has answered it
+      r += 1
+      steps += [['req', r, 0], ['adv', 10], ['frameor', rng.choice([-2, -128]), 0, rng.choice([0x800000, 0x800000, 0x400000, 0x10000, 0x100])], ['adv', 10]]
+      for _ in range(6):
+        r += 1
+        steps.append(['req', r, 0])
+      steps.append(['adv', 10])
+      steps += [['reply', 0]] * 7 + [['adv', 10]]
   steps += [['adv', 200]]
   return {'kind': 'mux', 'fault_at': {}, 'plans': [['ok', 0]], 'steps': steps, 'rseed': rng.randint(0, 10 ** 6)}
 
@@ -412,6 +424,12 @@ def run_case(script):
       live = [c for c in net.conns if c.connected and not c.closed]
       if live and kind in ('mux', 'kafka'):
         peer.send_frame(live[-1], op[1], op[2], b'\x00\x00\x00' if op[1] == -2 else b'')
+    elif k == 'frameor':
+      # a frame naming a tag the client never issued that differs from an outstanding one in a single high bit
+      un = [p for p in peer.unanswered() if not p.conn.closed and p.tag is not None]
+      if un and kind == 'mux':
+        p = un[op[2] % len(un)]
+        peer.send_frame(p.conn, op[1], p.tag | op[3], b'\x00\x00\x00' if op[1] == -2 else b'')
     elif k == 'silent':
       if kind == 'mux':
         peer.ping_mode = 'silent' if op[1] else 'answer'
